@@ -8,6 +8,7 @@ mod multi;
 mod qchk;
 mod qexpr;
 mod qry;
+mod qupd;
 mod rt;
 mod sched;
 mod schk;
@@ -75,6 +76,11 @@ fn main() {
         "C29" => schk::c29(tier),
         "C35" => schk::c35(tier),
         "C11" => qchk::c11(tier),
+        "C12" => qupd::c12(tier),
+        "C13" => qupd::c13(tier),
+        "C14" => qupd::c14(tier),
+        "C24" => qupd::c24(tier),
+        "C19" => qchk::c19(tier),
         "C20" => qexpr::c20(tier),
         "C21" => qexpr::c21(tier),
         "C22" => qexpr::c22(tier),
